@@ -653,3 +653,480 @@ Proof.
   - destruct (step_wf fmt r n o W) as (k & Hk & Wk). specialize (IH _ _ Wk).
     eapply Forall_impl; [|exact IH]. intros s (k' & Hk' & W'). exists k'. split; [lia|exact W'].
 Qed.
+
+(* ======================= round 4: worlds — several record objects over shared memory ======================= *)
+(* ---------------- generic update ---------------- *)
+Lemma upd_length {A} (l : list A) i x : length (upd l i x) = length l.
+Proof. revert i. induction l as [|a l IH]; intros [|i]; cbn; auto. Qed.
+
+Lemma nth_upd_same {A} (l : list A) i x d : (i < length l)%nat -> nth i (upd l i x) d = x.
+Proof. revert i. induction l as [|a l IH]; intros [|i] H; cbn in *; try lia; auto. apply IH. lia. Qed.
+
+Lemma nth_upd_other {A} (l : list A) i j x d : i <> j -> nth j (upd l i x) d = nth j l d.
+Proof. revert i j. induction l as [|a l IH]; intros [|i] [|j] H; cbn; auto; try lia. Qed.
+
+(* ---------------- gather / scatter on one column ---------------- *)
+Lemma gather_col_length bs pos : length (gather_col bs pos) = length pos.
+Proof. unfold gather_col. apply map_length. Qed.
+
+Lemma gather_col_nth bs pos j : (j < length pos)%nat -> nth j (gather_col bs pos) 0 = nth (nth j pos 0%nat) bs 0.
+Proof.
+  unfold gather_col. revert j. induction pos as [|p ps IH]; intros [|j] H; cbn in *; try lia; auto. apply IH. lia.
+Qed.
+
+Lemma gather_col_bytes bs pos : byte_list bs -> byte_list (gather_col bs pos).
+Proof.
+  intros H. unfold gather_col. apply Forall_forall. intros x Hx. apply in_map_iff in Hx as (i & <- & _).
+  destruct (Nat.lt_ge_cases i (length bs)) as [L|L].
+  - rewrite Forall_forall in H. apply H. now apply nth_In.
+  - rewrite nth_overflow by exact L. lia.
+Qed.
+
+Lemma gather_col_seq bs : gather_col bs (seq 0 (length bs)) = bs.
+Proof.
+  apply nth_ext with (d := 0) (d' := 0).
+  - now rewrite gather_col_length, seq_length.
+  - intros j Hj. rewrite gather_col_length, seq_length in Hj.
+    rewrite gather_col_nth by (now rewrite seq_length). now rewrite seq_nth.
+Qed.
+
+Lemma scatter_col_length pos : forall vs bs, length (scatter_col bs pos vs) = length bs.
+Proof.
+  unfold scatter_col. induction pos as [|p ps IH]; intros [|v vs] bs; cbn; auto.
+  rewrite IH. apply set_nth_length.
+Qed.
+
+Lemma scatter_col_other pos : forall vs bs p, ~ In p pos -> nth p (scatter_col bs pos vs) 0 = nth p bs 0.
+Proof.
+  unfold scatter_col. induction pos as [|q ps IH]; intros [|v vs] bs p Hp; cbn; auto.
+  rewrite IH by (intros X; apply Hp; now right).
+  apply nth_set_nth_other. intros ->. apply Hp. now left.
+Qed.
+
+Lemma scatter_col_same pos : forall vs bs i, NoDup pos -> length vs = length pos ->
+  Forall (fun p => (p < length bs)%nat) pos -> (i < length pos)%nat ->
+  nth (nth i pos 0%nat) (scatter_col bs pos vs) 0 = nth i vs 0.
+Proof.
+  induction pos as [|q ps IH]; intros [|v vs] bs i Hnd Hl Hb Hi; cbn in Hl, Hi; try lia.
+  inversion Hnd as [|? ? Hq Hnd']; subst. inversion Hb as [|? ? Hqb Hb']; subst.
+  unfold scatter_col. cbn [combine fold_left fst snd]. fold (scatter_col (set_nth bs q v) ps vs).
+  destruct i as [|i]; cbn [nth].
+  - rewrite scatter_col_other by exact Hq. now apply nth_set_nth_same.
+  - apply IH; auto; try lia.
+    eapply Forall_impl; [|exact Hb']. intros p Hp. cbn beta in *. now rewrite set_nth_length.
+Qed.
+
+Lemma scatter_col_bytes pos : forall vs bs, byte_list bs -> byte_list vs -> byte_list (scatter_col bs pos vs).
+Proof.
+  unfold scatter_col. induction pos as [|q ps IH]; intros [|v vs] bs Hb Hv; cbn; auto.
+  inversion Hv; subst. apply IH; [|assumption].
+  clear - Hb H1. revert q. induction Hb as [|b bs Hb0 Hb IHb]; intros [|q]; cbn; constructor; auto.
+Qed.
+
+(* ---------------- records ---------------- *)
+Lemma gather_keys r pos : map fst (gather r pos) = map fst r.
+Proof. unfold gather. rewrite map_map. reflexivity. Qed.
+
+Lemma scatter_keys r pos v : map fst (scatter r pos v) = map fst r.
+Proof. unfold scatter. rewrite map_map. reflexivity. Qed.
+
+Lemma col_get_gather r pos c : In c (map fst r) -> col_get (gather r pos) c = gather_col (col_get r c) pos.
+Proof.
+  induction r as [|[c' b'] t IH]; cbn; [tauto|]. intros H.
+  destruct (String.eqb c' c) eqn:E; [reflexivity|].
+  apply IH. destruct H as [->|H]; [|exact H]. now rewrite String.eqb_refl in E.
+Qed.
+
+Lemma col_get_absent r c : ~ In c (map fst r) -> col_get r c = [].
+Proof.
+  induction r as [|[c' b'] t IH]; cbn; [reflexivity|]. intros H.
+  destruct (String.eqb c' c) eqn:E; [apply String.eqb_eq in E; subst; tauto|]. apply IH. tauto.
+Qed.
+
+Lemma col_get_scatter r pos v c : In c (map fst r) ->
+  col_get (scatter r pos v) c = scatter_col (col_get r c) pos (col_get v c).
+Proof.
+  induction r as [|[c' b'] t IH]; cbn; [tauto|]. intros H.
+  destruct (String.eqb c' c) eqn:E; [apply String.eqb_eq in E; now subst|].
+  apply IH. destruct H as [->|H]; [|exact H]. now rewrite String.eqb_refl in E.
+Qed.
+
+(* reading through positions, for every column name *)
+Lemma gather_nth r pos c j : (j < length pos)%nat ->
+  nth j (col_get (gather r pos) c) 0 = nth (nth j pos 0%nat) (col_get r c) 0.
+Proof.
+  intros H. destruct (in_dec string_dec c (map fst r)) as [Hin|Hni].
+  - rewrite col_get_gather by exact Hin. now apply gather_col_nth.
+  - rewrite (col_get_absent (gather r pos)) by (now rewrite gather_keys). rewrite (col_get_absent r) by exact Hni.
+    now destruct j, (nth _ pos 0%nat).
+Qed.
+
+Lemma scatter_nth_other r pos v c p : ~ In p pos -> nth p (col_get (scatter r pos v) c) 0 = nth p (col_get r c) 0.
+Proof.
+  intros H. destruct (in_dec string_dec c (map fst r)) as [Hin|Hni].
+  - rewrite col_get_scatter by exact Hin. now apply scatter_col_other.
+  - rewrite (col_get_absent (scatter r pos v)) by (now rewrite scatter_keys). now rewrite (col_get_absent r).
+Qed.
+
+Lemma rec_len_wf fmt r n : In fmt known_fmts -> rec_wf fmt r n -> rec_len r = n.
+Proof.
+  intros Hk [K H].
+  assert (fmt_cols fmt <> []) as Hne.
+  { assert (forallb (fun f => match fmt_cols f with [] => false | _ => true end) known_fmts = true) as T by (vm_compute; reflexivity).
+    rewrite forallb_forall in T. specialize (T _ Hk). now destruct (fmt_cols fmt). }
+  destruct r as [|[c b] t]; [exfalso; apply Hne; now rewrite <- K|]. inversion H as [|x l Hx Hl]; subst. destruct Hx as [L _]. exact L.
+Qed.
+
+Lemma gather_wf fmt r n pos : rec_wf fmt r n -> rec_wf fmt (gather r pos) (length pos).
+Proof.
+  intros [K H]. split; [now rewrite gather_keys|].
+  unfold gather. apply Forall_map. eapply Forall_impl; [|exact H].
+  intros [c b] [_ Hb]. cbn [fst snd] in *. split; [apply gather_col_length|now apply gather_col_bytes].
+Qed.
+
+Lemma scatter_wf fmt r n pos v k : rec_wf fmt r n -> rec_wf fmt v k -> rec_wf fmt (scatter r pos v) n.
+Proof.
+  intros [K H] [Kv Hv]. split; [now rewrite scatter_keys|].
+  unfold scatter. apply Forall_map. apply Forall_forall. intros [c b] Hin.
+  rewrite Forall_forall in H. destruct (H _ Hin) as [L B]. cbn [fst snd] in *.
+  split; [now rewrite scatter_col_length|]. apply scatter_col_bytes; [exact B|].
+  assert (In c (map fst v)) as Hc by (rewrite Kv, <- K; apply in_map_iff; exists (c, b); auto).
+  now destruct (col_get_ok v c k Hv Hc).
+Qed.
+
+Lemma rec_len_scatter r pos v : rec_len (scatter r pos v) = rec_len r.
+Proof. destruct r as [|[c b] t]; cbn; [reflexivity|]. apply scatter_col_length. Qed.
+
+Lemma gather_seq fmt r n : rec_wf fmt r n -> gather r (seq 0 n) = r.
+Proof.
+  intros [_ H]. unfold gather. induction H as [|[c b] t [L _] _ IH]; cbn [map]; [reflexivity|].
+  cbn [fst snd] in *. rewrite IH. subst n. now rewrite gather_col_seq.
+Qed.
+
+(* ---------------- worlds: one operation on one object ---------------- *)
+Definition act_res (w : world) (a : nat) (f : Z -> prec -> prec * option err) : prec * option err :=
+  f (fst (buf_at w (fst (obj_at w a)))) (obj_read w a).
+
+Lemma apply_obj_cases w a f :
+  let k := fst (obj_at w a) in let pos := snd (obj_at w a) in
+  let fmt := fst (buf_at w k) in let r := snd (buf_at w k) in
+  let res := act_res w a f in
+  (rec_len (fst res) = length pos
+   /\ apply_obj w a f = ((upd (fst w) k (fmt, scatter r pos (fst res)), snd w), snd res))
+  \/ (rec_len (fst res) <> length pos
+   /\ apply_obj w a f = ((fst w ++ [(fmt, fst res)], upd (snd w) a (length (fst w), seq 0 (rec_len (fst res)))), snd res)).
+Proof.
+  cbv zeta. unfold apply_obj, act_res, obj_read.
+  destruct (Nat.eqb _ _) eqn:E; [left|right]; (split; [|reflexivity]).
+  - now apply Nat.eqb_eq in E.
+  - now apply Nat.eqb_neq in E.
+Qed.
+
+Lemma wstep_target w o a : wop_target o = Some a -> wstep w o = apply_obj w a (wop_action w o).
+Proof. destruct o; cbn [wop_target]; intros E; inversion E; subst; reflexivity. Qed.
+
+(* memory outside the addressed points of the addressed object is not written; formats never change *)
+Lemma apply_obj_frame w a f k c p : (k < length (fst w))%nat ->
+  k <> fst (obj_at w a) \/ ~ In p (snd (obj_at w a)) ->
+  fst (buf_at (fst (apply_obj w a f)) k) = fst (buf_at w k) /\ cell (fst (apply_obj w a f)) k c p = cell w k c p.
+Proof.
+  intros Hk Hd. destruct (apply_obj_cases w a f) as [[_ ->]|[_ ->]]; cbn [fst snd]; unfold cell, buf_at; cbn [fst snd].
+  - destruct (Nat.eq_dec (fst (obj_at w a)) k) as [E|E].
+    + rewrite E. rewrite nth_upd_same by exact Hk. cbn [fst snd]. split; [reflexivity|].
+      apply scatter_nth_other. destruct Hd as [Hd|Hd]; [congruence|]. exact Hd.
+    + now rewrite nth_upd_other by exact E.
+  - now rewrite app_nth1 by exact Hk.
+Qed.
+
+Lemma apply_obj_others w a f b : b <> a -> obj_at (fst (apply_obj w a f)) b = obj_at w b.
+Proof.
+  intros Hb. destruct (apply_obj_cases w a f) as [[_ ->]|[_ ->]]; cbn [fst snd]; unfold obj_at; cbn [fst snd]; [reflexivity|].
+  apply nth_upd_other. congruence.
+Qed.
+
+Lemma wwf_obj w b : wwf w -> (b < length (snd w))%nat ->
+  (fst (obj_at w b) < length (fst w))%nat /\ NoDup (snd (obj_at w b))
+  /\ Forall (fun i => (i < rec_len (snd (buf_at w (fst (obj_at w b)))))%nat) (snd (obj_at w b)).
+Proof. intros [_ H] Hb. rewrite Forall_forall in H. apply H. unfold obj_at. now apply nth_In. Qed.
+
+Lemma wwf_buf w k : wwf w -> (k < length (fst w))%nat ->
+  In (fst (buf_at w k)) known_fmts /\ rec_wf (fst (buf_at w k)) (snd (buf_at w k)) (rec_len (snd (buf_at w k))).
+Proof. intros [H _] Hk. rewrite Forall_forall in H. apply H. unfold buf_at. now apply nth_In. Qed.
+
+Lemma ocell_cell w b c j : (j < length (snd (obj_at w b)))%nat ->
+  ocell w b c j = cell w (fst (obj_at w b)) c (nth j (snd (obj_at w b)) 0%nat).
+Proof. intros H. unfold ocell, cell, obj_read. now apply gather_nth. Qed.
+
+(* ISOLATION ACROSS OBJECTS: a point of another object that is not one of the addressed points keeps every packed byte *)
+Lemma apply_obj_isolated w a f b c j : wwf w -> (b < length (snd w))%nat -> b <> a ->
+  (j < length (snd (obj_at w b)))%nat ->
+  fst (obj_at w b) <> fst (obj_at w a) \/ ~ In (nth j (snd (obj_at w b)) 0%nat) (snd (obj_at w a)) ->
+  obj_at (fst (apply_obj w a f)) b = obj_at w b /\ ocell (fst (apply_obj w a f)) b c j = ocell w b c j.
+Proof.
+  intros W Hb Hne Hj Hd. pose proof (apply_obj_others w a f b Hne) as Eo. split; [exact Eo|].
+  rewrite !ocell_cell by (rewrite ?Eo; exact Hj). rewrite Eo.
+  destruct (wwf_obj w b W Hb) as (Hk & _ & _).
+  now apply apply_obj_frame.
+Qed.
+
+(* THE TARGET reads exactly what the single-record operation produced, in both cases (written through / new memory) *)
+Lemma apply_obj_target w a f c i : wwf w -> (a < length (snd w))%nat ->
+  let res := act_res w a f in
+  rec_wf (obj_fmt w a) (fst res) (rec_len (fst res)) ->
+  length (snd (obj_at (fst (apply_obj w a f)) a)) = rec_len (fst res)
+  /\ (In c (fmt_cols (obj_fmt w a)) -> (i < rec_len (fst res))%nat ->
+      ocell (fst (apply_obj w a f)) a c i = nth i (col_get (fst res) c) 0).
+Proof.
+  intros W Ha res Wr. destruct (wwf_obj w a W Ha) as (Hk & Hnd & Hb).
+  destruct (wwf_buf w _ W Hk) as (Hkn & [K H]).
+  destruct (apply_obj_cases w a f) as [[L E]|[L E]]; fold res in L, E; rewrite E; cbn [fst snd].
+  - assert (obj_at (upd (fst w) (fst (obj_at w a)) (fst (buf_at w (fst (obj_at w a))), scatter (snd (buf_at w (fst (obj_at w a)))) (snd (obj_at w a)) (fst res)), snd w) a = obj_at w a) as Eo by reflexivity.
+    rewrite Eo. split; [now rewrite L|]. intros Hc Hi.
+    rewrite ocell_cell by (rewrite Eo; lia). rewrite Eo. unfold cell, buf_at. cbn [fst snd].
+    rewrite nth_upd_same by exact Hk. cbn [snd].
+    fold (buf_at w (fst (obj_at w a))).
+    rewrite col_get_scatter by (now rewrite K).
+    destruct Wr as [Kr Hr]. destruct (col_get_ok (fst res) c _ Hr ltac:(now rewrite Kr)) as [Lr _].
+    destruct (col_get_ok (snd (buf_at w (fst (obj_at w a)))) c _ H ltac:(now rewrite K)) as [Lb _].
+    apply scatter_col_same; [exact Hnd|lia| |lia].
+    rewrite Lb. exact Hb.
+  - unfold obj_at at 1 2. cbn [fst snd]. rewrite nth_upd_same by exact Ha. cbn [fst snd].
+    split; [apply seq_length|]. intros _ Hi.
+    unfold ocell, obj_read, obj_at, buf_at. cbn [fst snd]. rewrite nth_upd_same by exact Ha. cbn [fst snd].
+    rewrite app_nth2 by lia. rewrite Nat.sub_diag. cbn [nth snd].
+    rewrite gather_nth by (now rewrite seq_length). now rewrite seq_nth.
+Qed.
+
+(* WRITTEN THROUGH: where another object addresses the same point of the same memory it reads the new value *)
+Lemma apply_obj_seen w a f b c i j : wwf w -> (a < length (snd w))%nat ->
+  fst (obj_at w b) = fst (obj_at w a) ->
+  (j < length (snd (obj_at w b)))%nat -> (i < length (snd (obj_at w a)))%nat ->
+  nth j (snd (obj_at w b)) 0%nat = nth i (snd (obj_at w a)) 0%nat ->
+  let res := act_res w a f in
+  rec_len (fst res) = length (snd (obj_at w a)) -> rec_wf (obj_fmt w a) (fst res) (rec_len (fst res)) ->
+  In c (fmt_cols (obj_fmt w a)) ->
+  ocell (fst (apply_obj w a f)) b c j = nth i (col_get (fst res) c) 0.
+Proof.
+  intros W Ha Ek Hj Hi Ep res L Wr Hc.
+  destruct (apply_obj_target w a f c i W Ha Wr) as [_ T]. fold res in T. rewrite <- T by (auto; lia).
+  destruct (apply_obj_cases w a f) as [[_ E]|[L' _]]; [|fold res in L'; contradiction].
+  assert (forall x, obj_at (fst (apply_obj w a f)) x = obj_at w x) as Eo by (intros x; rewrite E; reflexivity).
+  rewrite !ocell_cell by (rewrite Eo; assumption). rewrite !Eo. now rewrite Ek, Ep.
+Qed.
+
+(* GROWTH DETACHES: the object gets memory nobody shares; every other object keeps everything *)
+Lemma apply_obj_grown w a f b : wwf w -> (a < length (snd w))%nat -> (b < length (snd w))%nat -> b <> a ->
+  rec_len (fst (act_res w a f)) <> length (snd (obj_at w a)) ->
+  fst (obj_at (fst (apply_obj w a f)) a) = length (fst w)
+  /\ obj_at (fst (apply_obj w a f)) b = obj_at w b /\ obj_read (fst (apply_obj w a f)) b = obj_read w b.
+Proof.
+  intros W Ha Hb Hne L. pose proof (apply_obj_others w a f b Hne) as Eo.
+  destruct (apply_obj_cases w a f) as [[L' _]|[_ E]]; [contradiction|].
+  split; [|split; [exact Eo|]].
+  - rewrite E. unfold obj_at. cbn [fst snd]. now rewrite nth_upd_same by exact Ha.
+  - unfold obj_read. rewrite Eo. f_equal. f_equal. rewrite E. unfold buf_at. cbn [fst snd].
+    apply app_nth1. now destruct (wwf_obj w b W Hb).
+Qed.
+
+(* ---------------- creating an object changes no existing object ---------------- *)
+Lemma ext_preserves (w w' : world) bl ol b : fst w' = fst w ++ bl -> snd w' = snd w ++ ol -> wwf w -> (b < length (snd w))%nat ->
+  obj_at w' b = obj_at w b /\ obj_read w' b = obj_read w b.
+Proof.
+  intros Eb Eo W Hb. assert (obj_at w' b = obj_at w b) as E by (unfold obj_at; rewrite Eo; now apply app_nth1).
+  split; [exact E|]. unfold obj_read. rewrite E. f_equal. f_equal. unfold buf_at. rewrite Eb.
+  apply app_nth1. now destruct (wwf_obj w b W Hb).
+Qed.
+
+Lemma wstep_create w o b : wop_target o = None -> wwf w -> (b < length (snd w))%nat ->
+  obj_at (fst (wstep w o)) b = obj_at w b /\ obj_read (fst (wstep w o)) b = obj_read w b.
+Proof.
+  intros T W Hb. destruct o as [fmt r|a chain|a idx|a fmt' plain|a o|a s plain]; cbn in T; try discriminate; cbn [wstep].
+  - eapply ext_preserves; eauto; reflexivity.
+  - eapply (ext_preserves w _ [] _ b); auto; cbn [fst snd]; [now rewrite app_nil_r|reflexivity].
+  - eapply ext_preserves; eauto; reflexivity.
+  - destruct (snd (step fmt' _ _)); [auto|]. eapply ext_preserves; eauto; reflexivity.
+Qed.
+
+(* a record with memory of its own: its memory is new (no existing object addresses it) *)
+Lemma wstep_fresh w o : snd (wstep w o) = None ->
+  match o with
+  | WNew _ _ | WGather _ _ | WConv _ _ _ =>
+    length (snd (fst (wstep w o))) = S (length (snd w)) /\ fst (obj_at (fst (wstep w o)) (length (snd w))) = length (fst w)
+  | WSlice a chain =>
+    obj_at (fst (wstep w o)) (length (snd w)) = (fst (obj_at w a), view_sub (snd (obj_at w a)) (view_chain (length (snd (obj_at w a))) chain))
+  | _ => True
+  end.
+Proof.
+  intros E. destruct o as [fmt r|a chain|a idx|a fmt' plain|a o|a s plain]; cbn [wstep] in *; auto.
+  - cbn [fst snd]. rewrite app_length. cbn [length]. split; [lia|]. unfold obj_at. cbn [snd]. rewrite app_nth2 by lia. now rewrite Nat.sub_diag.
+  - unfold obj_at at 1. cbn [fst snd]. rewrite app_nth2 by lia. now rewrite Nat.sub_diag.
+  - cbn [fst snd]. rewrite app_length. cbn [length]. split; [lia|]. unfold obj_at. cbn [snd]. rewrite app_nth2 by lia. now rewrite Nat.sub_diag.
+  - destruct (snd (step fmt' _ _)) eqn:S; [discriminate|].
+    cbn [fst snd]. rewrite app_length. cbn [length]. split; [lia|]. unfold obj_at. cbn [snd]. rewrite app_nth2 by lia. now rewrite Nat.sub_diag.
+Qed.
+
+(* ---------------- worlds stay well formed ---------------- *)
+Definition bcond (b : wbuf) : Prop := In (fst b) known_fmts /\ rec_wf (fst b) (snd b) (rec_len (snd b)).
+Definition ocond (bufs : list wbuf) (o : wobj) : Prop :=
+  (fst o < length bufs)%nat /\ NoDup (snd o) /\ Forall (fun i => (i < rec_len (snd (nth (fst o) bufs ((0%Z, []) : wbuf))))%nat) (snd o).
+
+Lemma wwf_unfold w : wwf w <-> Forall bcond (fst w) /\ Forall (ocond (fst w)) (snd w).
+Proof. reflexivity. Qed.
+
+Lemma Forall_upd {A} (P : A -> Prop) l i x : Forall P l -> P x -> Forall P (upd l i x).
+Proof. intros H Hx. revert i. induction H as [|a l Ha Hl IH]; intros [|i]; cbn; constructor; auto. Qed.
+
+Lemma ocond_mono bufs bufs' o : ocond bufs o ->
+  ((fst o < length bufs)%nat -> (fst o < length bufs')%nat
+     /\ rec_len (snd (nth (fst o) bufs' ((0%Z, []) : wbuf))) = rec_len (snd (nth (fst o) bufs ((0%Z, []) : wbuf)))) ->
+  ocond bufs' o.
+Proof. intros (A & B & C) H. destruct (H A) as [A' E]. repeat split; auto. now rewrite E. Qed.
+
+Lemma ocond_push bufs x o : ocond bufs o -> ocond (bufs ++ [x]) o.
+Proof. intros H. apply (ocond_mono bufs); [exact H|]. intros L. rewrite app_length, app_nth1 by exact L. cbn. split; [lia|reflexivity]. Qed.
+
+Lemma ocond_fresh bufs (x : wbuf) : ocond (bufs ++ [x]) (length bufs, seq 0 (rec_len (snd x))).
+Proof.
+  unfold ocond. cbn [fst snd]. rewrite app_length. cbn [length]. split; [lia|]. split; [apply seq_NoDup|].
+  rewrite app_nth2 by lia. rewrite Nat.sub_diag. cbn [nth]. apply Forall_forall. intros i Hi. apply in_seq in Hi. lia.
+Qed.
+
+Lemma wwf_push w fmt r : wwf w -> In fmt known_fmts -> rec_wf fmt r (rec_len r) ->
+  wwf (fst w ++ [(fmt, r)], snd w ++ [(length (fst w), seq 0 (rec_len r))]).
+Proof.
+  intros W Hk Hr. apply wwf_unfold in W as [B O]. apply wwf_unfold. cbn [fst snd]. split.
+  - apply Forall_app. split; [exact B|]. constructor; [|constructor]. split; assumption.
+  - apply Forall_app. split.
+    + eapply Forall_impl; [|exact O]. intros o. apply ocond_push.
+    + constructor; [|constructor]. apply (ocond_fresh (fst w) (fmt, r)).
+Qed.
+
+Lemma step_res_wf fmt g n o : In fmt known_fmts -> rec_wf fmt g n ->
+  rec_wf fmt (fst (step fmt g o)) (rec_len (fst (step fmt g o))) /\ (n <= rec_len (fst (step fmt g o)))%nat.
+Proof.
+  intros Hk W. destruct (step_wf fmt g n o W) as (k & Hn & Wk).
+  rewrite (rec_len_wf fmt _ k Hk Wk). split; [exact Wk|exact Hn].
+Qed.
+
+Lemma zero_rec_wf fmt n : rec_wf fmt (zero_rec fmt n) n.
+Proof.
+  split; [unfold zero_rec; rewrite map_map; apply map_id|].
+  unfold zero_rec. apply Forall_map. apply Forall_forall. intros c _. cbn [fst snd].
+  split; [apply repeat_length|]. apply Forall_forall. intros x Hx. apply repeat_spec in Hx. lia.
+Qed.
+
+Lemma act_wf w a o : wwf w -> (a < length (snd w))%nat ->
+  let res := act_res w a (wop_action w o) in
+  rec_wf (obj_fmt w a) (fst res) (rec_len (fst res)) /\ (length (snd (obj_at w a)) <= rec_len (fst res))%nat.
+Proof.
+  intros W Ha. destruct (wwf_obj w a W Ha) as (Hk & _ & _). destruct (wwf_buf w _ W Hk) as (Hkn & Wb).
+  pose proof (gather_wf _ _ _ (snd (obj_at w a)) Wb) as Wg. fold (obj_read w a) in Wg.
+  unfold act_res, obj_fmt.
+  destruct o as [fmt r|a' chain|a' idx|a' fmt' plain|a' o|a' s plain]; cbn [wop_action fst];
+    try (split; [now rewrite (rec_len_wf _ _ _ Hkn Wg)|rewrite (rec_len_wf _ _ _ Hkn Wg); lia]);
+    now apply step_res_wf.
+Qed.
+
+Lemma apply_obj_wf w a o : wwf w -> (a < length (snd w))%nat -> wwf (fst (apply_obj w a (wop_action w o))).
+Proof.
+  intros W Ha. destruct (act_wf w a o W Ha) as [Wr _].
+  destruct (wwf_obj w a W Ha) as (Hk & _ & _). destruct (wwf_buf w _ W Hk) as (Hkn & Wb).
+  pose proof W as W0. apply wwf_unfold in W as [B O].
+  destruct (apply_obj_cases w a (wop_action w o)) as [[L E]|[L E]]; rewrite E; cbn [fst]; apply wwf_unfold; cbn [fst snd].
+  - split.
+    + apply Forall_upd; [exact B|]. split; cbn [fst snd]; [exact Hkn|]. rewrite rec_len_scatter. eapply scatter_wf; eauto.
+    + eapply Forall_impl; [|exact O]. intros ob Hob. apply (ocond_mono (fst w)); [exact Hob|]. intros Lo.
+      rewrite upd_length. split; [exact Lo|].
+      destruct (Nat.eq_dec (fst (obj_at w a)) (fst ob)) as [Ek|Ek].
+      * rewrite <- Ek. rewrite nth_upd_same by exact Hk. cbn [snd]. apply rec_len_scatter.
+      * now rewrite nth_upd_other by exact Ek.
+  - split.
+    + apply Forall_app. split; [exact B|]. constructor; [|constructor]. split; cbn [fst snd]; assumption.
+    + apply Forall_upd.
+      * eapply Forall_impl; [|exact O]. intros ob. apply ocond_push.
+      * apply (ocond_fresh (fst w) (fst (buf_at w (fst (obj_at w a))), fst (act_res w a (wop_action w o)))).
+Qed.
+
+Lemma wstep_wf w o : wwf w -> wop_ok w o -> wwf (fst (wstep w o)).
+Proof.
+  intros W Hok. destruct o as [fmt r|a chain|a idx|a fmt' plain|a o|a s plain]; cbn [wop_ok] in Hok.
+  - destruct Hok as [Hk Hr]. cbn [wstep fst]. now apply wwf_push.
+  - destruct Hok as [Ha Hc]. cbn [wstep fst]. destruct (wwf_obj w a W Ha) as (Hk & Hnd & Hb).
+    apply wwf_unfold in W as [B O]. apply wwf_unfold. cbn [fst snd]. split; [exact B|].
+    apply Forall_app. split; [exact O|]. constructor; [|constructor].
+    destruct (view_chain_spec _ _ Hc) as [Cn Cl].
+    unfold ocond. cbn [fst snd]. split; [exact Hk|]. split; [now apply view_sub_nodup|].
+    apply Forall_forall. intros x Hx. apply (view_sub_incl _ _ Cl) in Hx. rewrite Forall_forall in Hb. now apply Hb.
+  - destruct Hok as [Ha Hi]. cbn [wstep fst]. destruct (wwf_obj w a W Ha) as (Hk & _ & _). destruct (wwf_buf w _ W Hk) as (Hkn & Wb).
+    pose proof (gather_wf _ _ _ (view_sub (snd (obj_at w a)) idx) Wb) as Wg.
+    assert (length (view_sub (snd (obj_at w a)) idx) = length idx) as Lv by (unfold view_sub; apply map_length).
+    rewrite Lv in Wg. pose proof (rec_len_wf _ _ _ Hkn Wg) as Lr.
+    cbv zeta. rewrite <- Lr. apply wwf_push; [exact W|exact Hkn|now rewrite Lr].
+  - destruct Hok as [Ha Hk']. cbn [wstep].
+    destruct (step_res_wf fmt' (zero_rec fmt' (length (snd (obj_at w a)))) _ (OCopy (obj_fmt w a) (obj_read w a) plain) Hk' (zero_rec_wf _ _)) as [Wr _].
+    destruct (snd (step fmt' _ _)); cbn [fst]; [exact W|]. now apply wwf_push.
+  - cbn [wstep]. now apply (apply_obj_wf w a (WAssign a o)).
+  - cbn [wstep]. now apply (apply_obj_wf w a (WCopyFrom a s plain)).
+Qed.
+
+Lemma wrun_wf : forall ops w, wwf w -> wrun_ok w ops -> Forall (fun s => wwf (fst s)) (wrun w ops).
+Proof.
+  induction ops as [|o t IH]; intros w W Hok; cbn [wrun]; constructor.
+  - apply wstep_wf; [exact W|apply Hok].
+  - apply IH; [apply wstep_wf; [exact W|apply Hok]|apply Hok].
+Qed.
+
+(* ---------------- the statements of Props/C09.v about worlds ---------------- *)
+Lemma act_assign w a o : act_res w a (wop_action w (WAssign a o)) = step (obj_fmt w a) (obj_read w a) o.
+Proof. reflexivity. Qed.
+
+Lemma act_copy_from w a s plain :
+  act_res w a (wop_action w (WCopyFrom a s plain)) = step (obj_fmt w a) (obj_read w a) (OCopy (obj_fmt w s) (obj_read w s) plain).
+Proof. reflexivity. Qed.
+
+Lemma world_memory_frame w o a k c p : wop_target o = Some a -> (k < length (fst w))%nat ->
+  k <> fst (obj_at w a) \/ ~ In p (snd (obj_at w a)) ->
+  fst (buf_at (fst (wstep w o)) k) = fst (buf_at w k) /\ cell (fst (wstep w o)) k c p = cell w k c p.
+Proof. intros T. rewrite (wstep_target w o a T). apply apply_obj_frame. Qed.
+
+Lemma world_isolated w o a b c j : wop_target o = Some a -> wwf w -> (b < length (snd w))%nat -> b <> a ->
+  (j < length (snd (obj_at w b)))%nat ->
+  fst (obj_at w b) <> fst (obj_at w a) \/ ~ In (nth j (snd (obj_at w b)) 0%nat) (snd (obj_at w a)) ->
+  obj_at (fst (wstep w o)) b = obj_at w b /\ ocell (fst (wstep w o)) b c j = ocell w b c j.
+Proof. intros T. rewrite (wstep_target w o a T). apply apply_obj_isolated. Qed.
+
+Lemma world_target w o a : wop_target o = Some a -> wwf w -> (a < length (snd w))%nat ->
+  let res := act_res w a (wop_action w o) in
+  snd (wstep w o) = snd res
+  /\ rec_wf (obj_fmt w a) (fst res) (rec_len (fst res))
+  /\ (length (snd (obj_at w a)) <= rec_len (fst res))%nat
+  /\ length (snd (obj_at (fst (wstep w o)) a)) = rec_len (fst res)
+  /\ (forall c i, In c (fmt_cols (obj_fmt w a)) -> (i < rec_len (fst res))%nat ->
+        ocell (fst (wstep w o)) a c i = nth i (col_get (fst res) c) 0).
+Proof.
+  intros T W Ha res. rewrite (wstep_target w o a T).
+  destruct (act_wf w a o W Ha) as [Wr Lr]. fold res in Wr, Lr.
+  split. { destruct (apply_obj_cases w a (wop_action w o)) as [[_ ->]|[_ ->]]; reflexivity. }
+  split; [exact Wr|]. split; [exact Lr|].
+  split. { now destruct (apply_obj_target w a (wop_action w o) EmptyString 0%nat W Ha Wr). }
+  intros c i. now destruct (apply_obj_target w a (wop_action w o) c i W Ha Wr).
+Qed.
+
+Lemma world_seen w o a b c i j : wop_target o = Some a -> wwf w -> (a < length (snd w))%nat ->
+  fst (obj_at w b) = fst (obj_at w a) ->
+  (j < length (snd (obj_at w b)))%nat -> (i < length (snd (obj_at w a)))%nat ->
+  nth j (snd (obj_at w b)) 0%nat = nth i (snd (obj_at w a)) 0%nat ->
+  let res := act_res w a (wop_action w o) in
+  rec_len (fst res) = length (snd (obj_at w a)) -> In c (fmt_cols (obj_fmt w a)) ->
+  ocell (fst (wstep w o)) b c j = nth i (col_get (fst res) c) 0.
+Proof.
+  intros T W Ha Ek Hj Hi Ep res L Hc. rewrite (wstep_target w o a T).
+  destruct (act_wf w a o W Ha) as [Wr _]. now apply apply_obj_seen.
+Qed.
+
+Lemma world_grown w o a b : wop_target o = Some a -> wwf w -> (a < length (snd w))%nat -> (b < length (snd w))%nat -> b <> a ->
+  rec_len (fst (act_res w a (wop_action w o))) <> length (snd (obj_at w a)) ->
+  fst (obj_at (fst (wstep w o)) a) = length (fst w)
+  /\ obj_at (fst (wstep w o)) b = obj_at w b /\ obj_read (fst (wstep w o)) b = obj_read w b.
+Proof. intros T. rewrite (wstep_target w o a T). apply apply_obj_grown. Qed.
+
